@@ -504,6 +504,34 @@ func c05Lexer(c *Ctx) {
 			return st
 		}
 		before := ts.run()
+		// consumption only: an item that is emitted without a net consumed rune does not move the scanner
+		tc := &typestate{fn: f, nstate: 3, init: 0}
+		tc.trans = func(in ssa.Instruction, st int) int {
+			switch x := in.(type) {
+			case *ssa.Call:
+				switch x.Call.StaticCallee() {
+				case next:
+					if st == 0 {
+						return 1
+					}
+					return 2
+				case backup:
+					if st == 1 {
+						return 0
+					}
+				case errorf:
+					return 2 // parser.Lex ends the stream on an ERROR item
+				}
+			case *ssa.Store:
+				if strings.HasSuffix(path(x.Addr), ".pos") {
+					if bo, ok := x.Val.(*ssa.BinOp); ok && bo.Op == token.ADD {
+						return 2
+					}
+				}
+			}
+			return st
+		}
+		beforeC := tc.run()
 		allInstrs(f, func(in ssa.Instruction) {
 			ret, ok := in.(*ssa.Return)
 			if !ok {
@@ -549,8 +577,12 @@ func c05Lexer(c *Ctx) {
 				r.Ob("LEX-CONTRACT", fmt.Sprintf("%s end-of-scan return #%d delivers an item", f.Name(), retOrdinal(f, ret)), t.Pos(ret.Pos()), m == 1<<2,
 					"a state function may stop the scanner (return nil) only after emit or errorf put an item in place, otherwise NextItem loops on a nil state")
 			}
+			mc := beforeC[ret]
+			if call, ok := ret.Results[0].(*ssa.Call); ok && call.Call.StaticCallee() == errorf {
+				mc = 1 << 2
+			}
 			for _, tg := range targets {
-				edges = append(edges, edge{f, tg, m&1 == 0, ret.Pos()})
+				edges = append(edges, edge{f, tg, m&1 == 0, ret.Pos(), mc == 1<<2, ret})
 			}
 		})
 	}
@@ -586,9 +618,64 @@ func c05Lexer(c *Ctx) {
 			nprog++
 		}
 		r.Ob("LEX-PROGRESS", fmt.Sprintf("edge %s -> %s (return at line-independent ordinal %d)", e.from.Name(), e.to.Name(), edgeOrdinal(edges, e)), t.Pos(e.pos), true,
-			fmt.Sprintf("progress on every path to this transition: %v", e.prog))
+			fmt.Sprintf("progress on every path to this transition: %v (net rune consumed on every path: %v)", e.prog, e.consumed))
 	}
 	r.Ob("LEX-PROGRESS", "state transitions without progress form no cycle", "pkg/parser/lex.go", len(cyc) == 0, fmt.Sprintf("cycles of transitions that neither consume a rune nor emit an item: %v — the lexer would spin forever on some input", cyc))
+	// consumption: abstract interpretation over rune classes — no cycle of states without a consumed rune, even
+	// when every state on it emits an item (an endless stream of empty tokens never reaches EOF)
+	{
+		var entry *ssa.Function
+		for _, s := range states {
+			if s.Name() == "lexStatements" {
+				entry = s
+			}
+		}
+		if entry == nil {
+			r.Undecided("LEX-CONSUME", "entry state lexStatements", "pkg/parser/lex.go", "unresolved anchor")
+		} else {
+			aedges, entryCls, ex := lexAbstract(t, states, entry)
+			if ex.aborted != "" {
+				r.Undecided("LEX-CONSUME", "abstract interpretation of the state functions", "pkg/parser/lex.go", ex.aborted)
+			} else {
+				zadj := map[*ssa.Function][]lexAbsEdge{}
+				for _, e := range aedges {
+					detail := "consumes at least one rune on every path"
+					if e.zero {
+						detail = "can be taken with the rune " + e.cls.String() + " still unread"
+						zadj[e.from] = append(zadj[e.from], e)
+					}
+					r.Ob("LEX-CONSUME", fmt.Sprintf("transition %s -> %s", e.from.Name(), e.to.Name()), t.Pos(e.from.Pos()), true, detail+fmt.Sprintf(" (entry class of %s: %s)", e.from.Name(), entryCls[e.from]))
+				}
+				var zc []string
+				col := map[*ssa.Function]int{}
+				var walk func(f *ssa.Function, stack []string)
+				walk = func(f *ssa.Function, stack []string) {
+					col[f] = 1
+					for _, e := range zadj[f] {
+						hop := f.Name() + " -[" + e.cls.String() + " unread]-> "
+						if col[e.to] == 1 {
+							zc = append(zc, strings.Join(append(stack, hop), "")+e.to.Name())
+						} else if col[e.to] == 0 {
+							walk(e.to, append(stack, hop))
+						}
+					}
+					col[f] = 2
+				}
+				for _, s := range states {
+					if col[s] == 0 {
+						walk(s, nil)
+					}
+				}
+				r.Ob("LEX-CONSUME", "no cycle of states leaves the next rune unread", "pkg/parser/lex.go", len(zc) == 0,
+					fmt.Sprintf("%d transitions, %d of them possible without consumption; cycles: %v — on such a rune the lexer emits tokens forever without advancing, and the parser never sees EOF", len(aedges), len(zadj), zc))
+				r.FloorN("abstract lexer transitions", len(aedges), 15)
+				r.Counts["lexabs_steps"] = ex.steps
+				if len(ex.unknownPreds) > 0 {
+					r.Extra["lexabs_unmodelled_predicates"] = sortedKeys(ex.unknownPreds)
+				}
+			}
+		}
+	}
 	r.FloorN("state transitions", len(edges), 25)
 	// NextItem: nil state -> emit(EOF)
 	okEOF := false
@@ -690,6 +777,8 @@ type lexEdge struct {
 	from, to *ssa.Function
 	prog     bool
 	pos      token.Pos
+	consumed bool // at least one rune consumed (net) on every path to the transition
+	ret      *ssa.Return
 }
 
 func edgeOrdinal(edges []lexEdge, e lexEdge) int {
